@@ -14,6 +14,7 @@ import sys
 
 import vlib
 import vasm
+import vcross
 
 from c01 import corpus_arg
 
@@ -198,6 +199,105 @@ def orcc_leg(scratch, env):
     return tot, viols
 
 
+def cross_leg(scratch, env, tier):
+    """32-bit NEON and MIPS: listing against code bytes with clang's integrated assembler (lib/vcross.py)."""
+    exe = vlib.build_engine("xasm", "plain")
+    levels = "L1,L4,L5,L6" if tier == "quick" else "L1,L2,L3,L4,L5,L6"
+    d = os.path.join(scratch, "cross")
+    os.makedirs(d)
+    nsh = 16
+    res = vlib.Results()
+    args = [["--mode", "cross", "--levels", levels, "--vectors", "cross", "--targets", "neon,mips", "--classes", "both",
+             "--corpus", corpus_arg(), "--shard", i, "--nshards", nsh, "--outdir", d] for i in range(nsh)]
+    vlib.run_shards(exe, args, env, timeout=3600, res=res, label="xasm-cross")
+    jobs = []
+    for f in sorted(glob.glob(os.path.join(d, "*.idx"))):
+        base = f[:-4]
+        t, fl, _ = os.path.basename(base).split("_")
+        if os.path.getsize(f):
+            jobs.append((base, t, int(fl, 16)))
+    tot = {"functions": 0, "equal": 0, "equal_mod_encoding": 0, "words": 0, "rejected_functions": 0, "as_runs": 0}
+    per = {}
+    viols = []
+    with cf.ProcessPoolExecutor(vlib.NCPU) as ex:
+        for job, o in zip(jobs, ex.map(vcross.process, jobs)):
+            for k in tot:
+                tot[k] += o[k]
+            per.setdefault(job[1], 0)
+            per[job[1]] += o["functions"]
+            viols.extend(o["viol"])
+    tot["functions_per_target"] = per
+    tot["levels"] = levels
+    tot["compiles"] = int(res.stats.get("compiles", 0))
+    # orcc: what users assemble.  Every corpus function and a two-function file whose names differ by a digit suffix
+    import subprocess
+    from c01 import CORPUS
+    orcc = vlib.build_tool("orcc")
+    sources = []
+    for rel in CORPUS:
+        p = os.path.join(vlib.REPO, rel)
+        if os.path.exists(p):
+            sources.append((rel, p))
+    two = os.path.join(scratch, "two.orc")
+    open(two, "w").write(".function conv\n.dest 2 d1\n.source 2 s1\n.source 2 s2\naddw d1, s1, s2\n\n.function conv1\n.dest 2 d1\n.source 2 s1\n"
+                         ".param 2 p1\nsubw d1, s1, p1\n\n.function conv11\n.flags 2d\n.dest 1 d1\n.source 1 s1\ncopyb d1, s1\n")
+    sources.append(("synthetic: three functions conv, conv1, conv11 in one file", two))
+    otot = {"files": 0, "functions": 0, "equal": 0, "equal_mod_encoding": 0}
+    for k, (rel, src) in enumerate(sources):
+        # one function per file for the corpus (a function a target cannot compile fails the whole orcc run), whole file for the synthetic one
+        parts = [src]
+        if src != two:
+            parts = []
+            for j, part in enumerate(re.split(r"(?m)^(?=\.function\b)", open(src).read())):
+                if part.startswith(".function"):
+                    fn = os.path.join(scratch, "xsrc_%d_%d.orc" % (k, j))
+                    open(fn, "w").write(part)
+                    parts.append(fn)
+        for pi, part in enumerate(parts):
+            for t in ("neon", "mips"):
+                dd = os.path.join(scratch, "xorcc_%d_%d_%s" % (k, pi, t))
+                os.makedirs(dd)
+                r = subprocess.run([orcc, "--binary", "--target", t, "-o", "out.s", part], cwd=dd, env=env, stdout=subprocess.PIPE, stderr=subprocess.PIPE, timeout=600)
+                bins = glob.glob(os.path.join(dd, "*_%s.bin" % t))
+                if r.returncode or not os.path.exists(os.path.join(dd, "out.s")) or not bins:
+                    shutil.rmtree(dd, ignore_errors=True)
+                    continue
+                otot["files"] += 1
+                obj = os.path.join(dd, "out.o")
+                ra = vcross.run(["clang", "-c"] + vcross.TRIPLE[t] + [os.path.join(dd, "out.s"), "-o", obj])
+                if ra.returncode:
+                    msg = ra.stderr.decode(errors="replace")
+                    m = re.search(r"error: (.*)", msg)
+                    kind = re.sub(r"'[^']*'", "'X'", m.group(1)) if m else "?"
+                    viols.append({"t": "viol", "key": "C12|orcc|%s|rejected|%s" % (t, kind),
+                                  "what": "the output of orcc --assembly --target %s for %s is rejected by the standard assembler: %s" % (t, rel, msg[:300]),
+                                  "replay": {"file": rel, "target": t, "cross": 1}})
+                    shutil.rmtree(dd, ignore_errors=True)
+                    continue
+                binf = os.path.join(dd, "text.bin")
+                vcross.run(["llvm-objcopy", "-O", "binary", "-j", ".text", obj, binf])
+                text = open(binf, "rb").read()
+                sym = vcross.symbols(obj)
+                names = sorted((sym[os.path.basename(b)[:-len("_%s.bin" % t)]], os.path.basename(b)[:-len("_%s.bin" % t)], b) for b in bins
+                               if os.path.basename(b)[:-len("_%s.bin" % t)] in sym)
+                for j, (addr, name, b) in enumerate(names):
+                    stop = names[j + 1][0] if j + 1 < len(names) else len(text)
+                    a, bb = text[addr:stop], open(b, "rb").read()
+                    otot["functions"] += 1
+                    if a == bb:
+                        otot["equal"] += 1
+                    elif len(a) == len(bb) and vcross.canon(t, a) == vcross.canon(t, bb):
+                        otot["equal_mod_encoding"] += 1
+                    else:
+                        viols.append({"t": "viol", "key": "C12|orcc|%s|diff|%s" % (t, rel),
+                                      "what": "orcc --binary --target %s %s: function %s: the listing assembles to %d bytes, the .bin file has %d, contents differ"
+                                              % (t, rel, name, len(a), len(bb)), "replay": {"file": rel, "target": t, "name": name, "cross": 1}})
+                shutil.rmtree(dd, ignore_errors=True)
+    tot["orcc"] = otot
+    shutil.rmtree(d, ignore_errors=True)
+    return tot, viols, res
+
+
 def run(ctx):
     tier = ctx["tier"]
     exe = vlib.build_engine("xasm", "plain")
@@ -236,6 +336,9 @@ def run(ctx):
         shutil.rmtree(d, ignore_errors=True)
     otot, oviols = orcc_leg(scratch, env)
     viols.extend(oviols)
+    ctot, cviols, cres = cross_leg(scratch, env, tier)
+    viols.extend(cviols)
+    viols.extend(cres.viol)
     shutil.rmtree(scratch, ignore_errors=True)
     # merge duplicate keys across shards
     seen = {}
@@ -252,8 +355,12 @@ def run(ctx):
                 "successful compile contributes one (listing, code bytes) pair; a pair is evaluated by assembling both with GNU as and "
                 "comparing objdump's instruction sequences; non-trivial = the listing assembled and was compared. orcc leg: for every corpus "
                 "file x {sse,avx,mmx}, the listing written by orcc --binary --target T is assembled and compared the same way with the "
-                "<function>_<target>.bin files orcc writes next to it"
-                % ", ".join(p[0] for p in plans),
+                "<function>_<target>.bin files orcc writes next to it. Cross-assembler leg: every program of the levels %s compiled for 32-bit "
+                "NEON (flags NEON) and MIPS (DSPr2; DSPr2 + frame pointer); the listing, preceded by the target's own assembler preamble, is "
+                "assembled with clang's integrated assembler (armv7a +neon / mipsel mips32r2 +dspr2) and the .text bytes are compared with the "
+                "bytes Orc emitted, equal modulo the nop and single-register push/pop encodings; the same for the output of orcc --binary "
+                "--target neon|mips on every corpus function and on a three-function file whose names differ by a digit suffix"
+                % (", ".join(p[0] for p in plans), ctot["levels"]),
         "samples": [{"plans": plans, "flag_vectors": nvec}],
         "flag_vectors": nvec,
         "compiles": int(st.get("compiles", 0)),
@@ -266,13 +373,15 @@ def run(ctx):
         "assembler_runs": tot["as_runs"],
         "program_space_size": int(st.get("space_size", 0)),
         "orcc_binary_leg": otot,
-        "exhaustive": not res.incomplete,
+        "cross_assembler_leg": ctot,
+        "exhaustive": not (res.incomplete or cres.incomplete),
     }
     assumptions = [
         "GNU as 2.40 and objdump are the reference assembler/disassembler; equality is on objdump's rendering (mnemonic, registers, "
         "memory operands, immediates), so two encodings of the same instruction (rel8/rel32, imm8/imm32, disp0/disp8=0) are equal",
         "alignment padding (nop forms) is removed on both sides; branch targets are compared as indices of the target instruction",
-        "NEON and MIPS listings are not compared: no cross assembler is installed",
+        "clang 14's integrated assembler is the standard assembler for 32-bit NEON and MIPS (no GNU cross binutils in the image); "
+        "AArch64 and PowerPC listings are outside the property's quantifier and are not compared",
     ]
     return "exploration", cov, assumptions, viols
 
@@ -283,7 +392,29 @@ def replay(rep):
     exe = vlib.build_engine("xasm", "plain")
     scratch = vlib.scratch_dir("C12r")
     env = vlib.scrub_env(scratch=scratch)
-    lv = "L" + r["name"][2] if r.get("name", "").startswith("vL") else "L1"
+    lv = "L" + r["name"][2] if (r.get("name") or "").startswith("vL") else "L1"
+    if r.get("cross"):
+        bad = 0
+        if r.get("name") and (r.get("name") or "").startswith("vL"):
+            subprocess.run([exe, "--mode", "cross", "--levels", lv, "--vectors", "cross", "--targets", r["target"], "--only", r["name"],
+                            "--only-flags", str(r["flags"]), "--corpus", corpus_arg(), "--outdir", scratch], env=env, stdout=subprocess.DEVNULL, timeout=600)
+            for f in glob.glob(os.path.join(scratch, "*.idx")):
+                if os.path.getsize(f):
+                    t, fl, _ = os.path.basename(f[:-4]).split("_")
+                    o = vcross.process((f[:-4], t, int(fl, 16)))
+                    for v in o["viol"]:
+                        print(v["key"], "::", v["what"][:400])
+                        bad = 1
+        else:
+            tot, viols, _ = cross_leg(scratch, env, "quick")
+            for v in viols:
+                if v["key"].startswith("C12|orcc|"):
+                    print(v["key"], "::", v["what"][:400])
+                    bad = 1
+        shutil.rmtree(scratch, ignore_errors=True)
+        if not bad:
+            print("replayed without violation")
+        return bad
     subprocess.run([exe, "--mode", "dump", "--levels", lv, "--vectors", "full", "--targets", r["target"], "--only", r["name"],
                     "--only-flags", str(r["flags"]), "--corpus", corpus_arg(), "--outdir", scratch], env=env, stdout=subprocess.DEVNULL, timeout=600)
     bad = 0
